@@ -41,8 +41,9 @@ func genHistory(t *rapid.T) []stack.Op {
 	nsess := 0
 	cp := uint64(0x1000)
 	associated := []int{0}
+	var sessNode []int
 	for i := 0; i < n; i++ {
-		k := rapid.SampledFrom([]string{"assoc", "est", "est", "est", "mod", "mod", "mod", "mod", "mod", "del", "report", "rsp0", "rsp", "moddead"}).Draw(t, "op")
+		k := rapid.SampledFrom([]string{"assoc", "est", "est", "est", "mod", "mod", "mod", "mod", "mod", "modnode", "del", "report", "rsp0", "rsp", "moddead"}).Draw(t, "op")
 		switch k {
 		case "assoc":
 			nd := rapid.IntRange(0, 2).Draw(t, "node")
@@ -55,7 +56,15 @@ func genHistory(t *rapid.T) []stack.Op {
 			}
 			cp++
 			ops = append(ops, stack.Op{Kind: "est", Peer: nd, Node: nd, Sess: -1, CP: cp, Rules: g.GenRules(t, true)})
+			sessNode = append(sessNode, nd)
 			nsess++
+		case "modnode":
+			// a Modification that repeats the owning node's own Node ID (legal; nothing changes hands)
+			if nsess == 0 {
+				continue
+			}
+			s := rapid.IntRange(0, nsess-1).Draw(t, "sess")
+			ops = append(ops, stack.Op{Kind: "mod", Peer: -2, Sess: s, Takeover: true, Node: sessNode[s], Rules: g.GenRules(t, false)})
 		case "mod":
 			if nsess == 0 {
 				continue
@@ -100,12 +109,12 @@ type msess struct {
 }
 
 type result struct {
-	v          *vcore.Violation
-	eligible   int
+	v               *vcore.Violation
+	eligible        int
 	endedAfterFault bool
-	badID      bool // update/remove/query of an id not currently in R
-	bulkEnd    bool // re-association / SEID-0 end of a session holding rules
-	ended      int
+	badID           bool // update/remove/query of an id not currently in R
+	bulkEnd         bool // re-association / SEID-0 end of a session holding rules
+	ended           int
 	afterRemovalOps int
 }
 
